@@ -1,6 +1,7 @@
 package main
 
 import (
+	"os"
 	"fmt"
 	"go/ast"
 	"go/token"
@@ -771,6 +772,11 @@ func verifyFunc(w *World, fi *FuncInfo, sweep bool) (res *FuncResult) {
 		runFrom(len(ds)-1, st)
 	}
 	finish = func(st *State, vals []string) {
+		if os.Getenv("VERIF_DEADPATHS") != "" {
+			// diagnostic: is this return path reachable at all (a contradictory path condition makes everything on it vacuous)
+			e.obs = append(e.obs, &Ob{Key: fi.Key + ".reachpath[" + strings.Join(st.path, ".") + "]", Func: fi.Key, Kind: "reach", Path: strings.Join(st.path, "."),
+				Decls: append([]string(nil), st.decls...), PC: append([]string(nil), st.pc...), Goal: "true", ExpectSat: true, Pos: e.pos(fi.Decl.Pos())})
+		}
 		e.npaths++
 		if e.npaths > maxPaths {
 			e.unsupported(fi.Decl.Pos(), "more than %d paths", maxPaths)
